@@ -6,7 +6,6 @@ import (
 	"fmt"
 	"go/ast"
 	"go/token"
-	"sort"
 	"strings"
 )
 
@@ -146,7 +145,7 @@ func (s *mg) stmts(list []ast.Stmt, k func() string) string {
 				}
 				out += strings.Join(s.pre, "")
 				s.pre, s.stmtNode = nil, nil
-				s.define(st, id.Name, typ)
+				s.define(id, id.Name, typ)
 				out += "let " + cname(id.Name) + " := " + val + " in\n  "
 			}
 		}
@@ -246,7 +245,7 @@ func (s *mg) ifStmt(st *ast.IfStmt, rest []ast.Stmt, k func() string) string {
 				vars = append(vars, v)
 			}
 		}
-		sort.Strings(vars)
+		s.t.sortDecl(vars)
 		if len(vars) == 0 {
 			return K()
 		}
@@ -283,7 +282,7 @@ func (s *mg) carried(w map[string]bool, saved mgSnap) ([]string, string) {
 			vars = append(vars, v)
 		}
 	}
-	sort.Strings(vars)
+	s.t.sortDecl(vars)
 	for _, v := range vars {
 		tys = append(tys, saved.env[v].coq())
 		s.wrote(v)
@@ -346,13 +345,13 @@ func (s *mg) rangeStmt(st *ast.RangeStmt, rest []ast.Stmt, k func() string) stri
 	s.depth++
 	pre := ""
 	if elem != "" {
-		s.define(st, elem, et)
+		s.define(st.Value, elem, et)
 		if et == tyOpt {
 			s.optVar = elem
 		}
 	}
 	if idx != "" {
-		s.define(st, idx, tInt)
+		s.define(st.Key, idx, tInt)
 		pre = "let " + cname(idx) + " := i_ in\n  "
 	}
 	s.retWrap = append(s.retWrap, func(v string) string { return "(inl " + v + ")" })
@@ -680,7 +679,7 @@ func (s *mg) assignTo(lhs ast.Expr, tok token.Token, rs string, rt *ty, n ast.No
 			if typ.k == "untyped" {
 				typ = tInt
 			}
-			s.define(n, name, typ)
+			s.define(l, name, typ)
 			return "let " + cname(name) + " := " + rs + " in\n  "
 		}
 		typ, ok := s.t.env[name]
